@@ -245,6 +245,13 @@ class C04(MsgProp):
         for t in gen.ALL_TYPES:
             ops = [m_op(bs) for (_, bs) in gen.payload_cases(t, rng, nrand)]
             yield (f"full:{t}", ops)
+        # the per-type public entry points `<Type as AisMessageType>::parse` (op P), with the payload's own type: the
+        # same fields as through the dispatch
+        ops = []
+        for t in gen.ALL_TYPES:
+            for (_, bs) in gen.payload_cases(t, rng, 8, walks=False):
+                ops.append(f"P {gen.type_code(t)} {hexs(bs)}")
+        yield ("per-type-entry", ops)
         # list branches
         for t in (7, 13, 20):
             for n in (1, 2, 3, 4):
